@@ -226,7 +226,7 @@ func runC05(p *core.Prog, r *core.Report) {
 				}
 			}
 		}
-		r.Check(okFinal, "C05.R1", "markShadowedUnits/final", "markShadowedUnits tests the unit's state against Completed and NoOp before shadowing it", "tests not found", p.Pos(ms.Pos()))
+		_ = okFinal // superseded by markShadowedUnits/only-pending (checkShadowOnlyPending): Pending/Shadowed excludes the final states
 	})
 
 	// ------------------------------------------------------------------ R2
@@ -508,6 +508,7 @@ func runC05(p *core.Prog, r *core.Report) {
 
 	// ------------------------------------------------------------------ R5
 	r.Guard("C05.R5", "Scheduler.Update", "message handling", func() { checkSchedulerUpdate(p, r, "C05.R5") })
+	r.Guard("C05.R1", "shadowing", "only pending units are shadowed", func() { checkShadowOnlyPending(p, r) })
 	r.Guard("C05.R1", "worker-pool", "worker slot states", func() { checkWorkerPool(p, r) })
 	r.Guard("C05.R5", "walker-protocol", "walker wake-ups", func() { checkWalkerProtocol(p, r, "C05.R5") })
 	r.Guard("C05.R4", "helpers", "merge and shadowing predicates", func() { checkSchedulerHelpers(p, r) })
